@@ -419,6 +419,72 @@ def call_impl(fn, *a, **kw):
 
 
 # ----------------------------------------------------------------------------------------------
+# direct sweep of the Boys function (shared by C03 and C04: the one transcendental their integrals depend on)
+# ----------------------------------------------------------------------------------------------
+BOYS_TOL = 1e-11
+BOYS_GRID = ["0", "5e-324", "1e-300", "1e-200", "1e-100", "1e-60", "1e-40", "1e-35", "1e-32", "1e-31", "1e-30", "2e-30",
+             "1e-29", "1e-28", "1e-27", "1e-26", "1e-25", "1e-24", "1e-22", "1e-20", "1e-18", "1e-16", "1e-14", "1e-12",
+             "1e-10", "1e-8", "1e-6", "1e-5", "1e-4", "1e-3", "1e-2", "0.1", "0.5", "1", "2", "5", "10", "20", "30", "40",
+             "50", "60", "80", "100", "300", "1e3", "1e4", "1e5", "1e6"]
+
+
+def boys_cases(seed, mmax, cls, chunk=7, nrandom=21):
+    """Cases {"kind": "boys", "cls", "orders": [0..mmax], "T": [exact dyadic strings]}: the fixed grid BOYS_GRID (T = 0,
+    the subnormal / tiny arguments that coincident product centres produce through rounding (1e-32..1e-25), every decade
+    up to 1e6) plus `nrandom` seeded 53-bit arguments log-uniform in 1e-33..1e6."""
+    rng = random.Random(1000003 * seed + 777)
+    ts = [Fraction(float(t)) for t in BOYS_GRID]
+    ts += [Fraction(10.0 ** rng.uniform(-33.0, 6.0)) for _ in range(nrandom)]
+    return [{"kind": "boys", "cls": cls, "orders": list(range(mmax + 1)), "T": [str(t) for t in ts[i:i + chunk]]}
+            for i in range(0, len(ts), chunk)]
+
+
+def eval_boys_case(case):
+    """`boys_func` of the class (PointChargeIntegral / ElectronRepulsionIntegral), called with the array shapes the
+    integral code uses, against mpmath (boys_mp, 260 bits): relative tolerance BOYS_TOL = 1e-11.  (The unchanged
+    implementation, hyp1f1, is within 2e-15 for orders <= 3 and loses a factor ~2 per order: 1.2e-12 at order 12 near
+    T = 55.  The integrals need far less (1e-8 / 1e-6); the sweep is there so that a Boys function that is wrong, zero
+    or NaN in a window of arguments is reported with (order, T) as the failing input.)"""
+    orders = [int(o) for o in case["orders"]]
+    ts = [Fraction(t) for t in case["T"]]
+    tf = np.array([float(t) for t in ts])
+    if case["cls"] == "eri":
+        from gbasis.integrals.electron_repulsion import ElectronRepulsionIntegral as cls
+        o = np.array(orders)[:, None, None, None, None]
+        w = tf[None, :, None, None, None]
+        tail = (1, 1, 1)
+    else:
+        from gbasis.integrals.point_charge import PointChargeIntegral as cls
+        o = np.array(orders)[:, None, None, None]
+        w = tf[None, :, None, None]
+        tail = (1, 1)
+    tag = "boys_func direct (%s) orders 0..%d" % (case["cls"], max(orders))
+    st, impl = call_impl(cls.boys_func, o, w)
+    if st != "ok":
+        return {"detail": {"kind": "rejected", "impl": impl}, "tag": tag, "nontrivial": True}
+    exact = [[round_dyadic(boys_mp(m, mpf_of(t))) for t in ts] for m in orders]
+    impl = np.asarray(impl)
+    if tuple(impl.shape) != (len(orders), len(ts)) + tail:
+        return {"detail": {"kind": "shape", "impl_shape": list(impl.shape),
+                           "model_shape": [len(orders), len(ts)] + list(tail)}, "tag": tag, "nontrivial": True}
+    d = compare(impl.reshape(len(orders), len(ts)), exact, tol_fn=lambda idx: BOYS_TOL * float(exact[idx[0]][idx[1]]))
+    if d is not None and "index" in d:
+        d["order"] = orders[d["index"][0]]
+        d["T"] = "%r" % float(ts[d["index"][1]])
+        d["tolerance_rule"] = "1e-11 relative to the exact F_m(T) (mpmath)"
+    return {"detail": d, "tag": tag, "nontrivial": True}
+
+
+def shrink_boys_case(case):
+    if len(case["T"]) > 1:
+        for t in case["T"]:
+            yield dict(case, T=[t])
+    if len(case["orders"]) > 1:
+        for o in case["orders"]:
+            yield dict(case, orders=[o])
+
+
+# ----------------------------------------------------------------------------------------------
 # reporting
 # ----------------------------------------------------------------------------------------------
 def case_hash(obj):
